@@ -65,6 +65,11 @@ class BehavioralRTLIRTypeCheckVisitorL3( BehavioralRTLIRTypeCheckVisitorL2 ):
 
         # If RHS is an int literal try to enforce the correct bitwidth.
         if not r_is_struct and is_rhs_reinterpretable and struct_nbits != vector_nbits:
+          # An implicitly sized RHS can be zero-extended to the LHS but never truncated
+          if vector_nbits > struct_nbits:
+            raise PyMTLTypeError( s.blk, node.ast,
+              f'The LHS of assignment has {struct_nbits} bits but '
+              f'the integer on the RHS requires more bits ({vector_nbits})!' )
           s.enforcer.enter( s.blk, rt.NetWire(rdt.Vector(struct_nbits)), node.value )
 
         if l_is_struct:
@@ -146,8 +151,7 @@ class BehavioralRTLIRTypeCheckVisitorL3( BehavioralRTLIRTypeCheckVisitorL2 ):
           target_nbits = field.get_length()
           # An implicitly sized argument can be zero-extended to the field
           # but never truncated
-          if isinstance( field, rdt.Vector ) and isinstance( v_dtype, rdt.Vector ) and \
-             v_dtype.get_length() > target_nbits:
+          if isinstance( v_dtype, rdt.Vector ) and v_dtype.get_length() > target_nbits:
             raise PyMTLTypeError( s.blk, node.ast,
               f"field {name} of {cls.__name__} has {target_nbits} bits but the integer "
               f"given as argument#{idx+1} requires more bits ({v_dtype.get_length()})!" )
